@@ -47,7 +47,7 @@ var (
 	extSels   = []string{"nil", "extension-all", "extension-none", "extension-custom", "negotiate-accept", "negotiate-decline", "negotiate-error", "negotiate-wsflate"}
 	hdrKinds  = []string{"nil", "string", "bytes", "func", "http"}
 	rejects   = []string{"", "OnRequest", "OnHost", "OnHeader", "OnBeforeUpgrade"}
-	rejKinds  = []string{"plain", "custom", "nostatus", "plain-slice", "plain-struct"}
+	rejKinds  = []string{"plain", "custom", "nostatus", "plain-slice", "plain-struct", "plain-percent", "custom-percent"}
 
 	protoOffers = [][]string{nil, {"chat"}, {"chat, superchat"}, {"mqtt", "json, chat.v2"}, {"chat.v2 ,json"}, {"x-1,x-2,x-3,json"},
 		// names differing only in letter case / prefixes of an accepted name: selection is exact and in client order
@@ -125,6 +125,11 @@ func rejection(kind string) (error, int, string, string) {
 	switch kind {
 	case "plain":
 		return errors.New("plain boom"), 500, "plain boom", ""
+	case "plain-percent":
+		// a text a formatting function would expand (an echoed percent-encoded URI, "50%")
+		return errors.New("no room /caf%C3%A9%20noir is 100% full %s %d %%"), 500, "no room /caf%C3%A9%20noir is 100% full %s %d %%", ""
+	case "custom-percent":
+		return ws.RejectConnectionError(ws.RejectionStatus(customStatus), ws.RejectionReason("quota 100% used: %v%!"), ws.RejectionHeader(ws.HandshakeHeaderString("X-Reject: yes\r\n"))), customStatus, "quota 100% used: %v%!", "yes"
 	case "plain-slice":
 		return multiErr{errors.New("first"), errors.New("second")}, 500, "2 problems: first", ""
 	case "plain-struct":
@@ -608,7 +613,7 @@ func decide(c *mon.C, upgrader string, cfg Cfg, req *gen.Req, protoHdrs, extHdrs
 				c.Fail(sigp+"/failure-extra-header", "the caller's extra header is missing from the error response", det())
 				return false
 			}
-			if cbRejects && cfg.RejKind == "custom" && ri.status == customStatus && ri.header.Get("X-Reject") != "yes" {
+			if cbRejects && strings.HasPrefix(cfg.RejKind, "custom") && ri.status == customStatus && ri.header.Get("X-Reject") != "yes" {
 				c.Fail(sigp+"/failure-reject-header", "the rejecting callback's header is missing from the error response", det())
 				return false
 			}
